@@ -87,6 +87,26 @@ func reachStatic(p *load.Program, pk *packages.Package, roots []*types.Func) []*
 		for _, g := range staticCallees(p, pk.TypesInfo, fd.Body) {
 			visit(g)
 		}
+		// functions handed over as values (`once.Do(initTable)`, `each(visitNode)`) run too
+		ast.Inspect(fd.Body, func(n ast.Node) bool {
+			call, ok := n.(*ast.CallExpr)
+			if !ok {
+				return true
+			}
+			for _, a := range call.Args {
+				switch x := ast.Unparen(a).(type) {
+				case *ast.Ident:
+					if g, ok := pk.TypesInfo.ObjectOf(x).(*types.Func); ok {
+						visit(g)
+					}
+				case *ast.SelectorExpr:
+					if g, ok := pk.TypesInfo.ObjectOf(x.Sel).(*types.Func); ok {
+						visit(g)
+					}
+				}
+			}
+			return true
+		})
 	}
 	for _, r := range roots {
 		visit(r)
@@ -189,6 +209,72 @@ func (c *Ctx) lexemeDispatch() (fn *ast.FuncDecl, handlers map[string][]*types.F
 					table, _ = pk.TypesInfo.ObjectOf(vs.Names[0]).(*types.Var)
 				}
 			}
+		}
+	}
+	if table == nil {
+		// the if-chain form: a function whose top-level ifs test one LexemeType value (the
+		// result of a Type() call, possibly kept in a local) against the constants - with ==,
+		// || and boolean predicates over the type - and call a handler in the branch
+		spk := c.P.Pkg("scanner")
+		ev := &kindEval{c: c, enumT: lt, tables: map[*types.Var]map[string]bool{}}
+		info := pk.TypesInfo
+		var best *ast.FuncDecl
+		bestN := 0
+		bestH := map[string][]*types.Func{}
+		bestDefault := false
+		c.P.Funcs(func(p *packages.Package, fd *ast.FuncDecl) {
+			if p != pk || spk == nil {
+				return
+			}
+			cf := c.CFG(pk, fd.Body)
+			isTag := func(e ast.Expr) bool {
+				e = ast.Unparen(cf.Resolve(e))
+				call, ok := e.(*ast.CallExpr)
+				if !ok || len(call.Args) != 0 {
+					return false
+				}
+				t := info.TypeOf(call)
+				return t != nil && types.Identical(t, lt)
+			}
+			h := map[string][]*types.Func{}
+			tests := 0
+			claimed := map[string]bool{}
+			for _, st := range fd.Body.List {
+				ifs, ok := st.(*ast.IfStmt)
+				if !ok || ifs.Init != nil || ifs.Else != nil {
+					continue
+				}
+				var trueFor []*types.Const
+				undecided := false
+				for _, k := range EnumConsts(spk, lt) {
+					switch ev.boolExpr(pk, &kindEnv{info: info, kind: k.Val(), isKind: isTag}, ifs.Cond, 0) {
+					case triTrue:
+						trueFor = append(trueFor, k)
+					case triUnknown:
+						undecided = true
+					}
+				}
+				if undecided || len(trueFor) == 0 {
+					continue
+				}
+				tests++
+				callees := staticCallees(c.P, info, ifs.Body)
+				for _, k := range trueFor {
+					if !claimed[k.Name()] {
+						claimed[k.Name()] = true
+						h[k.Name()] = callees
+					}
+				}
+			}
+			if tests >= 3 && tests > bestN {
+				best, bestN, bestH = fd, tests, h
+				if n := len(fd.Body.List); n > 0 {
+					_, bestDefault = fd.Body.List[n-1].(*ast.ReturnStmt)
+				}
+			}
+		})
+		if best != nil {
+			return best, bestH, bestDefault
 		}
 	}
 	if table != nil {
@@ -542,6 +628,21 @@ func (c *Ctx) handlerTable() map[string]*types.Func {
 				return true
 			}
 			cl, ok := as.Rhs[0].(*ast.CompositeLit)
+			if !ok {
+				// the literal may be built by a function: core.directiveFunctions = core.newTable()
+				if call, isCall := ast.Unparen(as.Rhs[0]).(*ast.CallExpr); isCall {
+					if gd := c.P.Decl(Callee(pk.TypesInfo, call)); gd != nil && gd.Body != nil && c.P.PkgOfDecl(gd) == pk {
+						inspectNoLit(gd.Body, func(y ast.Node) bool {
+							if ret, isRet := y.(*ast.ReturnStmt); isRet && len(ret.Results) == 1 {
+								if l, isLit := ast.Unparen(ret.Results[0]).(*ast.CompositeLit); isLit {
+									cl, ok = l, true
+								}
+							}
+							return true
+						})
+					}
+				}
+			}
 			if !ok {
 				return true
 			}
